@@ -39,7 +39,7 @@ class CallMixin:
             if name in ("old", "implies", "result", "use", "hint", "iff", "fresh_ref", "subset", "union", "setminus", "mapdom",
                         "singleton", "setadd", "setdel", "mapset", "mapdel", "seqlen", "issub", "isinst", "typeof", "ite", "mapget",
                         "emptyset", "length", "inter", "exc_is", "some", "unopt", "isnone", "const", "cast", "elems", "distinct",
-                        "str_init", "str_last", "str_first", "has", "aslist", "inside", "confined", "rec_has", "rec_get", "rec_set", "log_count", "log_arg", "log_result", "log_result_field", "log_raised", "module", "lower"):
+                        "str_init", "str_last", "str_first", "has", "aslist", "inside", "confined", "rec_has", "rec_get", "rec_set", "log_count", "log_arg", "log_result", "log_result_field", "log_raised", "module", "lower", "alph", "charset", "alnum_chars"):
                 return Callable_("dslfn", name)
         mod = env.get("__mod__")
         if mod is not None:
@@ -771,6 +771,9 @@ class CallMixin:
                     yield st, x.join(obj, st, self, node)
                 else:
                     raise Unsupported("join of %r" % (x,), node)
+            elif meth == "replace" and len(args) == 2:
+                from .strings import str_replace_all
+                yield st, mk_str(str_replace_all(self, st, obj.t, args[0].t, args[1].t))
             elif meth in ("lower", "upper", "strip") and not args:
                 f = z3.Function("str_" + meth, z3.StringSort(), z3.StringSort())
                 self.note_assumption("str.%s() is an uninterpreted function of the string" % meth)
